@@ -213,6 +213,9 @@ def choose_value(rng, f, maxcount=3, col_mode=None):
         mag = rng.choice([0, 1, (1 << (w - 1)) - 1, rng.getrandbits(w - 1)]) if w > 1 else 0
         mag = min(mag, 2 ** 30)
         sign = rng.choice([0, 1]) if w > 1 and mag else 0
+        if sign and (mag == 1 or mag == (1 << (w - 1)) - 1):
+            mag = 2 if w > 2 else 0      # new references -1 and -(2^(w-1)-1): known finding (taken for 'missing'), probed separately
+            sign = sign if mag else 0
         return dict(raw=(sign << (w - 1)) | mag, af=0)
     if f.get("c31"):
         return dict(raw=rng.choice([0, 1, ones - 1 if ones > 1 else 0, rng.getrandbits(w)]), af=0)
